@@ -538,7 +538,10 @@ def r01_4(ctx, prog, crate, rec):
                     for s in sb.blocks[x]["stmts"]:
                         if s["k"] == "assign" and s["p"]["l"] == 0 and s["rv"]["k"] == "agg":
                             res[val] = s["rv"].get("variant")
-            ctx.check(res == {True: "Err", False: "Ok"}, "R01.4", ["DeferStore::slots", "Ok-iff-outputs-deferred"], "slots() returns %s" % res, sb.where(0))
+            from .common import slots_result_variants
+            sv = slots_result_variants(prog, crate)
+            ctx.check(bool(sv) and res == {True: sv["inputs"][0], False: sv["slots"][0]}, "R01.4", ["DeferStore::slots", "Ok-iff-outputs-deferred"],
+                      "slots() returns %s (variants by payload: %s)" % (res, sv), sb.where(0))
     # DeferSlot field types
     adt = prog.adt("benchmark::defer::DeferSlot", crate)
     if ctx.anchor("R01.4", "DeferSlot ADT", 1 if adt else 0, 1):
